@@ -368,6 +368,9 @@ func (p *prover) mayKill(m ssa.Instruction, path string) bool {
 			}
 			return false // len, cap, append (returns a new header), delete handled as map: conservative below
 		}
+		if p.h2ClosureKills(call, path) {
+			return true // ip_h2.go: a local closure modifies what it captured without being handed it
+		}
 		// arguments that hand out the container or its address
 		for _, a := range callArgs(call) {
 			ap := pathOf(a)
@@ -452,6 +455,9 @@ func (p *prover) keyAt(v ssa.Value, q ssa.Instruction) string {
 			mutated := false
 			eachInstr(x.Parent(), func(_ *ssa.BasicBlock, _ int, m ssa.Instruction) {
 				ci, ok := m.(ssa.CallInstruction)
+				if ok && !mutated && h2ClosureTouches(ci, recv) && instrReaches(x, m) && reachesWithoutRedoing(m, q, x) {
+					mutated = true // ip_h2.go: a local closure that calls a mutating method of the receiver
+				}
 				if !ok || mutated || m == ssa.Instruction(x) || len(ci.Common().Args) == 0 || ci.Common().IsInvoke() {
 					return
 				}
@@ -906,6 +912,7 @@ func (cl *collector) define(v ssa.Value, depth int) {
 				cl.define(o, depth+1)
 				f.addEQ(t, p.intTerm(o, q), 0)
 			}
+			cl.h2VarLower(x, t) // ip_h2.go: 0 <= a private variable whose every store keeps it non-negative
 		}
 	}
 }
@@ -965,6 +972,16 @@ func phiLowerBounds(fn *ssa.Function) map[*ssa.Phi]int64 {
 				if k, isC := constInt(x.Y); isC && k >= 0 {
 					return 0
 				}
+			}
+			if k, isC := constInt(x.Y); isC && k > 0 && x.Op == token.REM {
+				// x % k takes the sign of x (H2: a cursor that wraps with % N instead of & (N-1))
+				switch b := edgeLo(x.X, depth+1); {
+				case b >= inf:
+					return inf
+				case b >= 0:
+					return 0
+				}
+				return -(k - 1)
 			}
 			if x.Op == token.ADD {
 				// sum of two values that are both bounded below by a non-negative constant: a
@@ -1581,12 +1598,12 @@ func (p *prover) leEdge(a ssa.Value, aLen bool, ca int64, b ssa.Value, bLen bool
 		if ph, ok := stripTermValue(a).(*ssa.Phi); ok && a != nil {
 			return p.perEdge(ph, func(e ssa.Value, last ssa.Instruction) bool {
 				return p.leEdge(e, aLen, ca+offsetOf(a), b, bLen, cb, last, ph.Block())
-			}, q, loopInvariant(b, ph))
+			}, q, loopInvariant(b, ph) || bLen && h2FixedLen(b)) // ip_h2.go: the length of an array is a constant of its type
 		}
 		if ph, ok := stripTermValue(b).(*ssa.Phi); ok && b != nil {
 			return p.perEdge(ph, func(e ssa.Value, last ssa.Instruction) bool {
 				return p.leEdge(a, aLen, ca, e, bLen, cb+offsetOf(b), last, ph.Block())
-			}, q, loopInvariant(a, ph))
+			}, q, loopInvariant(a, ph) || aLen && h2FixedLen(a))
 		}
 	}
 	// parameter facts from callers
